@@ -496,54 +496,65 @@ def render(op) -> str:
     return k + '()'
 
 
+def first_diff(ops: list, answers: list, oracle: FreshOracle):
+    """(index, history answer, fresh answer) of the first query of `ops` answered differently from a fresh
+    interpreter, or None."""
+    idx = [i for i, op in enumerate(ops) if is_probe(op)]
+    fresh = oracle.answers([fresh_ops(ops, i) for i in idx])
+    for i, f in zip(idx, fresh):
+        if f is not None and f[0] == 'harness-error':
+            return None
+        if answers[i] != f:
+            return i, answers[i], f
+    return None
+
+
 def fails(ops: list, oracle: FreshOracle, tries: int = 1, robust: bool = False):
-    """Does the LAST operation of `ops` answer differently after the history than in a fresh interpreter?
-    Returns (history answer, fresh answer, stats, observed) or None. Which address a new object gets depends on
-    everything else the process allocates, so the history is run both instrumented and bare; `robust` demands the
-    failure in every one of those runs (a replay must reproduce), otherwise one is enough."""
-    fresh = oracle.answers([fresh_ops(ops, len(ops) - 1)])[0]
-    if fresh[0] == 'harness-error':
-        return None
+    """Is SOME query of the history `ops` answered differently from a fresh interpreter? Returns
+    (index, history answer, fresh answer, stats, instrumented) or None. Which address a new object gets depends
+    on everything else the process allocates, so the history is run both instrumented and bare; `robust` demands
+    a difference in every one of those runs (a replay must reproduce), otherwise one run is enough."""
     items = [{'ops': ops, 'observe': True}] * tries + [{'ops': ops, 'observe': False}] * tries
     res = run_items(items)
-    hits = [(it, r) for it, r in zip(items, res) if 'answers' in r and r['answers'][-1] != fresh]
+    hits = []
+    for it, r in zip(items, res):
+        d = first_diff(ops, r['answers'], oracle) if 'answers' in r else None
+        if d is not None:
+            hits.append((d, it, r))
     if not hits or (robust and len(hits) < len(items)):
         return None
-    it, r = hits[0]
-    return r['answers'][-1], fresh, r['stats'] if it['observe'] else {}, it['observe']
+    d, it, r = hits[0]
+    return d[0], d[1], d[2], (r['stats'] if it['observe'] else {}), it['observe']
 
 
 def shrink(ops: list, oracle: FreshOracle, deadline: float) -> list:
-    """Delta-debugging of the operations before the probe, keeping the failure (a world operation that the rest
-    needs cannot be removed: the candidate then errors and is discarded). Chunks first, single operations last;
-    stops at `deadline` with what it has (still a failing history)."""
+    """Delta-debugging of the history, keeping "some query differs from fresh, in an instrumented and in a bare
+    process" (a world operation that the rest needs cannot be removed: the candidate then errors and is discarded).
+    Chunks first, single operations last; stops at `deadline` with what it has (still a failing history)."""
     def still_fails(cands):
-        """first (shortest) candidate whose last operation still answers differently from a fresh interpreter"""
         uniq, seen = [], set()
         for c in cands:
             k = json.dumps(c)
-            if k not in seen:
+            if k not in seen and any(is_probe(op) for op in c):
                 seen.add(k)
                 uniq.append(c)
         if not uniq:
             return None
-        fresh = oracle.answers([fresh_ops(c, len(c) - 1) for c in uniq])
         res = run_items([{'ops': c, 'observe': ob} for c in uniq for ob in (False, True)])
-        ok = [c for j, (c, f) in enumerate(zip(uniq, fresh)) if f[0] != 'harness-error' and
-              all('answers' in r and r['answers'][-1] != f for r in res[2 * j:2 * j + 2])]
+        ok = [c for j, c in enumerate(uniq)
+              if all('answers' in r and first_diff(c, r['answers'], oracle) is not None for r in res[2 * j:2 * j + 2])]
         return min(ok, key=len) if ok else None
     cur = ops
-    chunk = max(1, (len(cur) - 1) // 2)
+    chunk = max(1, len(cur) // 2)
     rounds = 0
-    while rounds < 30 and time.time() < deadline:
+    while rounds < 40 and time.time() < deadline:
         rounds += 1
-        n = len(cur) - 1
-        if n == 0:
+        n = len(cur)
+        if n <= 1:
             break
-        chunk = min(chunk, n)
-        cands = [cur[:a] + cur[a + chunk:] for a in range(0, n, chunk) if a + chunk <= n or a < n]
-        cands = [c for c in cands if c and c[-1] == cur[-1] and len(c) < len(cur)]
-        nxt = still_fails(cands)
+        chunk = min(chunk, n - 1)
+        cands = [cur[:a] + cur[a + chunk:] for a in range(0, n, chunk)]
+        nxt = still_fails([c for c in cands if c and len(c) < len(cur)])
         if nxt is not None:
             cur = nxt
             continue
@@ -784,26 +795,26 @@ def explore(ck: Check, n: int, seed: int, n_table: int, n_truth: int, shrink_sec
             if attempts[guess] < 3:
                 continue
             small, layout = ops, True
-            hist_a, fresh_a, stats, observed = (results[k]['answers'][i], truth[json.dumps(fresh_ops(ops, i))],
-                                                results[k].get('stats', {}), k < user_histories)
+            at, hist_a, fresh_a, stats, observed = (i, results[k]['answers'][i], truth[json.dumps(fresh_ops(ops, i))],
+                                                    results[k].get('stats', {}), k < user_histories)
         else:
             small, layout = shrink(ops, oracle, max(shrink_deadline, time.time() + 20)), False
-            again = fails(small, oracle, tries=2, robust=True)
+            again = fails(small, oracle, robust=True) or fails(small, oracle, tries=2)
             if again is None:
                 small, again = ops, first
-            hist_a, fresh_a, stats, observed = again
-        key = classify(small, stats)
+            at, hist_a, fresh_a, stats, observed = again
+        key = classify(small[:at + 1], stats)
         attempts[guess] = 3
         if key in keys_seen:
             continue
         keys_seen.add(key)
         ex.failures.append(Failure(
             key=key,
-            what=f'after the history {[render(o) for o in small[:-1]]} the query {render(small[-1])} answers {hist_a}; '
+            what=f'in the history {[render(o) for o in small]} the query #{at} {render(small[at])} answers {hist_a}; '
                  f'a fresh interpreter answers {fresh_a}',
-            replay={'ops': small, 'readable': [render(o) for o in small], 'history_answer': hist_a, 'fresh_answer': fresh_a,
-                    'measured': stats, 'instrumented': observed, 'depends_on_address_layout_of_one_process': layout,
-                    'unshrunk_ops': ops if len(ops) <= 80 else None}))
+            replay={'ops': small, 'readable': [render(o) for o in small], 'differing_query': at, 'history_answer': hist_a,
+                    'fresh_answer': fresh_a, 'measured': stats, 'instrumented': observed,
+                    'depends_on_address_layout_of_one_process': layout, 'unshrunk_ops': ops if len(ops) <= 80 else None}))
     phases['shrink'] = round(time.time() - t1, 1)
     ex.extra['true_fresh_interpreter_forks'] = oracle.evaluations
     t1 = time.time()
@@ -824,17 +835,17 @@ def replay(data: dict) -> int:
     ops = data['ops']
     oracle = FreshOracle()
     print('history:')
-    for o in ops[:-1]:
-        print('   ', render(o))
-    print('query:  ', render(ops[-1]))
+    for j, o in enumerate(ops):
+        print(f'  #{j:<3}', render(o))
     got = fails(ops, oracle, tries=6)
-    fresh = oracle.answers([fresh_ops(ops, len(ops) - 1)])[0]
     if got is None:
-        print(f'replay: history process and fresh interpreter agree ({fresh}) — not reproduced')
+        print('replay: every query of the history is answered as in a fresh interpreter — not reproduced')
         return 0
-    print(f'replay: after the history the query answers {got[0]}; a fresh interpreter answers {got[1]}')
-    if got[3]:
-        print(f'        measured in the history process: {got[2]}')
+    at, hist_a, fresh_a, stats, observed = got
+    print(f'replay: query #{at} {render(ops[at])} answers {hist_a} in the history process; a fresh interpreter '
+          f'(only the definitions it refers to) answers {fresh_a}')
+    if observed:
+        print(f'        measured in the history process: {stats}')
     return 1
 
 
